@@ -450,6 +450,7 @@ pub async fn run_async(plan: Arc<PlanB>, opts: &ExecB) -> RunResult {
         out_delay_p: plan.out_delay_p,
         out_delay_max_ms: 1500,
         sndbuf: plan.sndbuf,
+        eph_ports: plan.eph_ports,
         max_seg: plan.max_seg,
         faults_until_ns: plan.queries.iter().filter(|q| !q.after_faults).map(|q| q.at_ms).max().map(|t| (t + 600_000) * 1_000_000).filter(|_| plan.queries.iter().any(|q| q.after_faults)).unwrap_or(u64::MAX),
     };
@@ -516,6 +517,24 @@ pub async fn run_async(plan: Arc<PlanB>, opts: &ExecB) -> RunResult {
             ji += 1;
         }
         tokio::time::sleep_until(t0 + Duration::from_millis(q.at_ms)).await;
+        if let Some(off_ms) = q.tcp_idle_off {
+            /* aim at the instant the newest TCP reply from this query's upstream is 120 s old */
+            let up = match plan.route_for(&q.qname) {
+                Some(RouteKind::Forward(u)) => Some(*u),
+                _ => None,
+            };
+            let target = {
+                let g = sh.lock().unwrap();
+                g.replies.iter().filter(|r| r.tcp && Some(r.upstream) == up).map(|r| r.handed_hi_ns).max().map(|t| t as i64 + 120_000_000_000 + off_ms * 1_000_000)
+            };
+            if let Some(t) = target {
+                let now = kernel.now_ns() as i64;
+                if t > now && t - now < 400_000_000_000 {
+                    tokio::time::sleep(Duration::from_nanos((t - now) as u64)).await;
+                    res.probe("C07.query_aimed_at_upstream_tcp_idle_timers");
+                }
+            }
+        }
         if let Some(off_ms) = q.ttl_boundary {
             /* wait for the instant the cached entry for this key runs out (+/- offset) */
             let target = {
@@ -662,6 +681,9 @@ fn evaluate(plan: &PlanB, kernel: &Arc<Kernel>, sh: &Sh, sent_at_ns: &[u64], _en
     }
     if plan.qid_bits < 16 {
         *res.faults.entry("low_entropy_query_ids".into()).or_insert(0) += 1;
+    }
+    if plan.eph_ports > 0 {
+        *res.faults.entry("small_ephemeral_port_range".into()).or_insert(0) += 1;
     }
     for (qi, q) in plan.queries.iter().enumerate() {
         if q.raw.is_some() || q.flood {
